@@ -253,6 +253,24 @@ def _cases(seqs, with_neg):
                 for k in range(nl):
                     yield dict(tree=_neg_leaf(t, k), leafset=0, mode='min', sp='')
                 yield dict(tree=('neg', t), leafset=1, mode='min', sp=' ')
+                # stacked minuses over the whole expression (each applies to the VALUE below it)
+                yield dict(tree=('neg', ('neg', t)), leafset=1, mode='min', sp='')
+                yield dict(tree=('neg', ('neg', ('neg', t))), leafset=0, mode='min', sp=' ')
+
+
+def _neg_inner(t, rng):
+    """one or two minuses in front of randomly chosen operator sub-trees"""
+    if t[0] == 'leaf':
+        return t
+    if t[0] == 'neg':
+        return ('neg', _neg_inner(t[1], rng))
+    t = (t[0], _neg_inner(t[1], rng), _neg_inner(t[2], rng))
+    x = rng.random()
+    if x < 0.2:
+        return ('neg', t)
+    if x < 0.3:
+        return ('neg', ('neg', t))
+    return t
 
 
 def _neg_leaf(t, k):
@@ -288,6 +306,8 @@ def cases_quads(tier, seed):
         t = rng.choice(ts)
         for _ in range(rng.randrange(0, 3)):
             t = _neg_leaf(t, rng.randrange(k))
+        if rng.random() < 0.5:
+            t = _neg_inner(t, rng)
         yield dict(tree=t, leafset=rng.randrange(3), mode=rng.choice(['min', 'min', 'full']), sp=rng.choice(['', ' ', '  ']))
 
 
